@@ -10,10 +10,11 @@ from lib import common, gramgen
 LEVEL = "proof"
 ASSUMPTIONS = [
     "theorems (Properties/C12.v): persistence round trip for every grammar and every well-formed table "
-    "(table_wfb, also evaluated on the impl's real tables); an absent or older .pgc is never consulted, in every "
-    "state of the directory; cache transparency for all histories with one option fingerprint, no interrupted "
-    "write, no touch of the .pgc and a strictly advancing clock, for every grammar loader that reads only its "
-    "imported_files and every table builder; four refutation witnesses show each hypothesis is necessary",
+    "(table_wfb, also evaluated on the impl's real tables); an absent, older, truncated or otherwise unloadable "
+    ".pgc is treated as absent, in every state of the directory; cache transparency for all histories with one "
+    "option fingerprint, no touch of the .pgc and a strictly advancing clock (interrupted writes allowed), for "
+    "every grammar loader that reads only its imported_files and every table builder; three refutation witnesses "
+    "show each remaining hypothesis is necessary",
     "the cache machine (Model/Cache.v) and the persistence model (Model/Persist.v) are tied to /repo by running "
     "generated histories in temporary grammar directories (mtimes forced with os.utime) and comparing, per step, "
     "the cache decision, the bytes and mtime of the .pgc, the constructed table or the exception",
@@ -27,7 +28,6 @@ ASSUMPTIONS = [
 
 BASE = 1_000_000_000
 KF_OPTIONS = "KF-C12-options-not-in-key"
-KF_PARTIAL = "KF-C12-partial-file-not-rejected"
 KF_STALE = "KF-C12-validity-by-mtime-only"
 
 EXC_CODE = {"JSONDecodeError": [1, 1], "KeyError": [1, 2], "IndexError": [1, 3],
@@ -521,10 +521,14 @@ def _prefix_worker(job):
             before = snap(pgc)
             r = build_parser(root, kind, opts, inputs, nm)
             rewritten = snap(pgc) != before
+            try:
+                repaired = json.loads(open(pgc, "rb").read().decode("utf-8")) == json.loads(data)
+            except (ValueError, OSError):
+                repaired = False
             same = (r["outcome"] == oracle["outcome"] and r.get("table") == oracle.get("table")
                     and r.get("marks") == oracle.get("marks")
                     and parses_differ(r.get("parses"), oracle.get("parses")) is None)
-            out["rows"].append([k, decodes, r["outcome"], rewritten, same])
+            out["rows"].append([k, decodes, r["outcome"], rewritten and repaired, same])
         return out
     except BaseException as e:  # noqa
         out["skip"] = "setup:" + impl.exc_kind(e)
@@ -668,9 +672,10 @@ def gen_history(rng, files, disciplined):
             op = ("compile", comp)
         elif x < 0.84:
             op = ("rm_cache",)
-        elif x < 0.92 and not disciplined:
-            kind, opts = rng.choice(optsets)
-            op = ("crash", kind, opts, rng.random())
+        elif x < 0.92:
+            kind, opts = (rng.choice(["lr", "glr"]), rng.choice(OPTS_POOL)) if rng.random() < 0.5 \
+                else rng.choice(optsets)
+            op = ("crash", kind, opts, rng.choice([0.0, rng.random(), rng.random(), 0.999]))
         elif not disciplined:
             op = ("touch_cache",)
         else:
@@ -693,9 +698,9 @@ CURATED_SCENARIOS = [
      [(1, ("construct", "glr", {})), (2, ("construct", "lr", {}))]),
     ("kf-compile-then-lr", {"g.pg": [EXPR]},
      [(1, ("compile", {"ps": False, "pse": False})), (2, ("construct", "lr", {}))]),
-    ("kf-truncated", {"g.pg": [EXPR]},
+    ("ok-truncated", {"g.pg": [EXPR]},
      [(1, ("crash", "lr", {}, 0.5)), (2, ("construct", "lr", {}))]),
-    ("kf-empty-file", {"g.pg": [EXPR]},
+    ("ok-empty-file", {"g.pg": [EXPR]},
      [(1, ("crash", "glr", {}, 0.0)), (2, ("construct", "glr", {}))]),
     ("kf-touched-cache", {"g.pg": [EXPR, EXPR2]},
      [(1, ("construct", "glr", {})), (2, ("edit", "g.pg", 1)), (3, ("touch_cache",)),
@@ -703,6 +708,9 @@ CURATED_SCENARIOS = [
     ("kf-same-tick", {"g.pg": [EXPR, EXPR2]},
      [(5, ("construct", "glr", {})), (5, ("edit", "g.pg", 1)), (6, ("construct", "glr", {}))]),
     # ... and histories inside the class of C12_cache_transparent_partial
+    ("ok-crash-other-options", {"g.pg": [EXPR, EXPR2]},
+     [(1, ("construct", "glr", {})), (2, ("edit", "g.pg", 1)), (3, ("crash", "lr", {}, 0.7)),
+      (4, ("construct", "glr", {})), (5, ("construct", "glr", {}))]),
     ("ok-reuse", {"g.pg": [EXPR, EXPR2]},
      [(1, ("construct", "glr", {})), (2, ("construct", "glr", {})), (3, ("edit", "g.pg", 1)),
       (4, ("construct", "glr", {})), (5, ("touch", "g.pg")), (6, ("construct", "glr", {})),
@@ -738,7 +746,8 @@ def gen_scenarios(ctx):
 
 def disciplined_prefixes(sc):
     """for each step i: is history[:i+1] in the syntactic class of
-    C12_cache_transparent_partial (one fingerprint, no crash, .pgc untouched, strict clock)"""
+    C12_cache_transparent_partial (one fingerprint among completed constructions, .pgc
+    untouched, strict clock; interrupted writes allowed)"""
     t = 0
     fps = set()
     ok = True
@@ -747,7 +756,7 @@ def disciplined_prefixes(sc):
         if now <= t:
             ok = False
         t = now
-        if op[0] in ("crash", "touch_cache"):
+        if op[0] == "touch_cache":
             ok = False
         if op[0] == "construct":
             fps.add(fingerprint(op[1], op[2]))
@@ -1077,8 +1086,7 @@ def eval_history(ctx, st, sc, r, o, samples, distinct):
         mech = None
         if agree and branch == 2 and not disc and writer is not None:
             if writer[0] == "broken":
-                if res["outcome"] == "JSONDecodeError":
-                    mech = KF_PARTIAL
+                mech = None       # repaired: a broken file must be rebuilt, any failure is a violation
             elif writer[2] != ist["gid"]:
                 mech = KF_STALE
             elif writer[1] != ist["fp"]:
@@ -1099,8 +1107,6 @@ def eval_history(ctx, st, sc, r, o, samples, distinct):
 KF_TEXT = {
     KF_OPTIONS: "a .pgc written under other parser options/kind is loaded (create_load_table keys the cache by "
                 "existence and mtime only)",
-    KF_PARTIAL: "a truncated .pgc (interrupted non-atomic save_table) makes construction raise JSONDecodeError "
-                "instead of rebuilding",
     KF_STALE: "a .pgc whose mtime is not older than the grammar files but which was built from other grammar "
               "content (touched .pgc, backdated or same-tick edit) is loaded",
 }
@@ -1199,15 +1205,15 @@ def eval_prefixes(ctx, xjobs, xres):
             if decodes:
                 ctx.violation("a strict byte prefix of a .pgc decodes as JSON (model assumption)", rep,
                               no_input=True, key="prefix-decodes")
-            if same:
-                continue          # behaves like the cache-free parser: property holds here
-            if outcome == "JSONDecodeError" and not decodes and not rewritten:
-                sc = {"files": {"g.pg": [r["text"]]}, "history": [["truncate", k]]}
-                kf_report(ctx, KF_PARTIAL, sc, 0, "%s construction raises JSONDecodeError for the %d-byte "
-                          "prefix of a %d-byte .pgc" % (r["kind"], k, r["len"]))
-            else:
-                ctx.violation("parser built over a truncated .pgc differs from the cache-free parser: %s"
-                              % outcome, rep, key="prefix-property")
+            # repaired defect (fixed: KF-C12-partial-file-not-rejected): a truncated file must be
+            # treated as absent -- same parser as with no cache, file rewritten in full
+            if not same:
+                ctx.violation("parser built over a truncated .pgc differs from the cache-free parser: %s "
+                              "(%d-byte prefix of a %d-byte file)" % (outcome, k, r["len"]), rep,
+                              key="prefix-property")
+            elif not rewritten:
+                ctx.violation("truncated .pgc was not rewritten with the complete table", rep,
+                              key="prefix-not-repaired")
     return xst
 
 
